@@ -199,6 +199,10 @@ def run_one(kind, connect_answers, actions, prefix):
 
     def body():
         gw.start()
+        if env.actions and env.actions[0][0] == "immediate":
+            env.actions.pop(0)  # the next action follows start() at once
+        else:
+            sched.sleep(0.3 * R, ("env.pause",))  # let the connect / poll threads get going
         for act in env.actions:
             name = act[0]
             if name in ("read-error", "bytes", "send", "send-write-error", "peer-close", "reset"):
@@ -327,18 +331,24 @@ def scripts(kind, tier):
     if kind == "tcp":
         acts.append(("peer-close",))
     out = []
-    answers = [[], ["refuse"], ["refuse", "refuse"]] + ([["timeout"]] if kind == "tcp" else [])
+    answers = [[], ["refuse"], ["refuse", "refuse"], ["ok", "refuse"], ["ok", "refuse", "refuse"]] + ([["timeout"], ["ok", "timeout"]] if kind == "tcp" else [])
     for ans in answers:
         for n in range(0, 3):
             for seq in itertools.product(acts, repeat=n):
-                dev = len(ans) + sum(1 for a in seq if a[0] != "send")
+                dev = sum(1 for a in ans if a != "ok") + sum(1 for a in seq if a[0] != "send")
+                if ans[:1] == ["ok"] and not any(a[0] in ("read-error", "send-write-error", "peer-close") for a in seq):
+                    continue  # the later answers would never be asked for
                 if dev > max_dev:
                     continue
-                out.append((ans, list(seq) + [("stop",)]))
+                tail = [("wait", 2.5 * R)] if ans[:1] == ["ok"] else []
+                out.append((ans, list(seq) + tail + [("stop",)]))
         # a second answer sequence: the reconnect attempt after a loss is refused once
     out.append((["ok", "refuse"], [("read-error",), ("wait", 2.5 * R), ("stop",)]))
     out.append((["ok", "refuse", "refuse"], [("send-write-error",), ("wait", 3.5 * R), ("stop",)]))
     out.append(([], [("stop",), ("wait", 3 * R)]))
+    out.append(([], [("immediate",), ("stop",), ("wait", 3 * R)]))
+    out.append((["refuse"], [("immediate",), ("stop",), ("wait", 3 * R)]))
+    out.append((["refuse", "refuse", "refuse"], [("wait", 1.5 * R), ("stop",), ("wait", 3 * R)]))
     return out
 
 
